@@ -370,6 +370,11 @@ def run(ctx):
                             key='PROV:edp_node::node::Node::make_reference:words')
     ctx.rule('C16.4-ref-words', 'each word of a fresh reference comes from its own fetch_add on reference_counter', floor=1)
 
+    # the creation handed to the allocator travels through the Creation newtype (PidAllocator::new / set_creation take Into<Creation>)
+    ctx.rule('C16.5-creation-conversions', 'Creation::new / From<u32> store the value they are given: a mask or a narrowing there makes pids carry a creation other than the one in force', floor=1)
+    from ..families import check_newtype_verbatim
+    check_newtype_verbatim(ctx, P, 'C16.5-creation-conversions', ['edp_client::types::Creation'])
+
 
 def _vec_elems(B, op):
     """operands of a `vec![a,b,c]` literal feeding op"""
